@@ -50,7 +50,7 @@ ETypeCases == {[part |-> "etype", s |-> s] : s \in Strings}
 
 Fields == {"exceptions", "working_directory", "paths", "message"}
 Sizes == {"small", "mid", "huge"}      \* per field: ~100 B, ~40 KiB, ~1.5 MiB (concretised by the replayer)
-Escapes == {"plain", "quotes", "control", "multibyte"}
+Escapes == {"plain", "quotes", "control", "multibyte", "html"}   \* html: literal <, >, & in the document (6 bytes each once re-encoded)
 
 CauseCases ==
     {[part |-> "cause", json |-> j, fields |-> fs, size |-> z, esc |-> e, extra |-> x] :
